@@ -64,8 +64,10 @@ def load_function(src, name, cflags):
 
 
 class Tr:
-    def __init__(self, fn):
+    def __init__(self, fn, src=None, cflags=()):
         self.fn = fn
+        self.src, self.cflags = src, cflags
+        self.depth = 0
         self.fields = []        # (param, field, is_array) in order of first use
         self.written = []       # field keys written, order of first write
         self.cnt = 0
@@ -95,9 +97,96 @@ class Tr:
             self.fields.append((key, is_arr))
         return key
 
+    # pointer-valued expression into an array field -> (field key, index text)
+    def ptr(self, n, env):
+        n = strip_ptr(n)
+        k = n.get("kind")
+        if k == "MemberExpr":
+            return (self.fkey(n), "0")
+        if k == "DeclRefExpr":
+            v = env.get(n["referencedDecl"]["name"])
+            if isinstance(v, tuple):
+                return v
+            raise LeafError("unsupported pointer variable " + n["referencedDecl"]["name"])
+        if k == "BinaryOperator" and n["opcode"] in ("+", "-"):
+            a, b = n["inner"]
+            if is_ptr(a):
+                key, i = self.ptr(a, env)
+                off = self.z(b, env)
+            elif n["opcode"] == "+" and is_ptr(b):
+                key, i = self.ptr(b, env)
+                off = self.z(a, env)
+            else:
+                raise LeafError("unsupported pointer arithmetic")
+            if n["opcode"] == "-":
+                return (key, "(%s - %s)" % (i, off))
+            return (key, off if i == "0" else "(%s + %s)" % (i, off))
+        if k == "UnaryOperator" and n["opcode"] == "&":
+            return self.lval(strip(n["inner"][0]), env)
+        if k == "CallExpr":
+            return self.inline(n, env, want_ptr=True)
+        raise LeafError("unsupported pointer expression " + str(k))
+
+    # lvalue denoting an array element -> (field key, index text)
+    def lval(self, n, env):
+        k = n.get("kind")
+        if k == "ArraySubscriptExpr":
+            key, i = self.ptr(n["inner"][0], env)
+            idx = self.z(n["inner"][1], env)
+            return (key, idx if i == "0" else "(%s + %s)" % (i, idx))
+        if k == "UnaryOperator" and n["opcode"] == "*":
+            return self.ptr(n["inner"][0], env)
+        raise LeafError("unsupported element lvalue " + str(k))
+
+    # call of a helper whose body is a single `return e;` : inlined by substitution
+    def inline(self, n, env, want_ptr=False):
+        callee = strip_ptr(n["inner"][0])
+        if callee.get("kind") != "DeclRefExpr" or self.src is None:
+            raise LeafError("unsupported call")
+        name = callee["referencedDecl"]["name"]
+        if self.depth > 8:
+            raise LeafError("call nesting too deep at " + name)
+        fn = load_function(self.src, name, self.cflags)
+        parms = [c for c in fn.get("inner", []) if c.get("kind") == "ParmVarDecl"]
+        body = [c for c in fn["inner"] if c.get("kind") == "CompoundStmt"][0]
+        ss = [x for x in body.get("inner", []) if x.get("kind") != "NullStmt"]
+        if len(ss) != 1 or ss[0].get("kind") != "ReturnStmt" or not ss[0].get("inner"):
+            raise LeafError("helper %s is not a single return expression" % name)
+        args = n["inner"][1:]
+        if len(args) != len(parms):
+            raise LeafError("argument count mismatch calling " + name)
+        cenv = {kk: vv for kk, vv in env.items() if kk.startswith("f_")}
+        added = []
+        for p_, a in zip(parms, args):
+            if ctype(p_) is not None:
+                cenv[p_["name"]] = self.z(a, env)
+            elif p_["type"]["qualType"].endswith("*"):
+                a0 = strip_ptr(a)
+                if a0.get("kind") == "DeclRefExpr" and a0["referencedDecl"]["name"] in self.ptrs:
+                    if p_["name"] not in self.ptrs:
+                        self.ptrs.add(p_["name"]); added.append(p_["name"])
+                else:
+                    cenv[p_["name"]] = self.ptr(a, env)
+            else:
+                raise LeafError("unsupported parameter type in helper " + name)
+        self.depth += 1
+        try:
+            if want_ptr:
+                return self.ptr(ss[0]["inner"][0], cenv)
+            return self.ex(ss[0]["inner"][0], cenv)
+        finally:
+            self.depth -= 1
+            for a in added:
+                self.ptrs.discard(a)
+
     # expression -> (gallina text, 'Z'|'B')
     def ex(self, n, env):
         k = n.get("kind")
+        if k == "CallExpr":
+            return self.inline(n, env)
+        if k == "UnaryOperator" and n.get("opcode") == "*":
+            key, i = self.ptr(n["inner"][0], env)
+            return ("(lget %s %s)" % (env.get(key, key), i), "Z")
         if k in ("ParenExpr", "ConstantExpr"):
             return self.ex(n["inner"][0], env)
         if k == "ImplicitCastExpr" or k == "CStyleCastExpr":
@@ -130,16 +219,15 @@ class Tr:
                 raise LeafError("enum constant needs a value table: " + nm)
             if nm not in env:
                 raise LeafError("unknown variable " + nm)
+            if isinstance(env[nm], tuple):
+                raise LeafError("pointer variable used as an integer: " + nm)
             return (env[nm], "Z")
         if k == "MemberExpr":
             key = self.fkey(n)
             return (env.get(key, key), "Z")
         if k == "ArraySubscriptExpr":
-            arr = strip(n["inner"][0])
-            if arr.get("kind") != "MemberExpr":
-                raise LeafError("unsupported array base")
-            key = self.fkey(arr)
-            return ("(lget %s %s)" % (env.get(key, key), self.z(n["inner"][1], env)), "Z")
+            key, i = self.lval(n, env)
+            return ("(lget %s %s)" % (env.get(key, key), i), "Z")
         if k == "UnaryOperator":
             op = n["opcode"]
             if op == "-":
@@ -217,6 +305,10 @@ class Tr:
             env = dict(env)
             out = ""
             for d in s.get("inner", []):
+                if d.get("kind") == "VarDecl" and ctype(d) is None and d["type"]["qualType"].endswith("*") \
+                        and d.get("inner"):
+                    env[d["name"]] = self.ptr(d["inner"][-1], env)
+                    continue
                 if d.get("kind") != "VarDecl" or ctype(d) is None:
                     raise LeafError("unsupported declaration")
                 nm = self.fresh(d["name"])
@@ -275,12 +367,8 @@ class Tr:
             if key not in self.written:
                 self.written.append(key)
             return "let %s := %s in\n  " % (new, val)
-        if k == "ArraySubscriptExpr":
-            arr = strip(lhs["inner"][0])
-            if arr.get("kind") != "MemberExpr":
-                raise LeafError("unsupported array store")
-            key = self.fkey(arr)
-            idx = self.z(lhs["inner"][1], env)
+        if k == "ArraySubscriptExpr" or (k == "UnaryOperator" and lhs.get("opcode") == "*"):
+            key, idx = self.lval(lhs, env)
             new = self.fresh(key)
             cur = env.get(key, key)
             env[key] = new
@@ -307,6 +395,18 @@ def strip(n):
     return n
 
 
+def strip_ptr(n):
+    while n.get("kind") in ("ParenExpr", "ImplicitCastExpr") and \
+            n.get("castKind", "NoOp") in ("NoOp", "LValueToRValue", "ArrayToPointerDecay", "FunctionToPointerDecay"):
+        n = n["inner"][0]
+    return n
+
+
+def is_ptr(n):
+    q = n.get("type", {}).get("qualType", "")
+    return q.endswith("*") or "[" in q
+
+
 def collect_written(node, acc):
     k = node.get("kind")
     if k in ("BinaryOperator", "CompoundAssignOperator") and node.get("opcode", "").endswith("=") and \
@@ -327,7 +427,7 @@ def collect_written(node, acc):
 def translate(src, name, cflags, gname=None):
     """-> (gallina definition text, [field args], [scalar params], [written fields], ret_kind)"""
     fn = load_function(src, name, cflags)
-    t = Tr(fn)
+    t = Tr(fn, src, cflags)
     body = [c for c in fn["inner"] if c.get("kind") == "CompoundStmt"][0]
     rt = fn["type"]["qualType"].split("(")[0].strip()
     if rt == "void":
@@ -340,8 +440,15 @@ def translate(src, name, cflags, gname=None):
         raise LeafError("unsupported return type " + rt)
     t.all_written = []
     collect_written(body, t.all_written)
-    env = {p: p for p in t.params}
-    code = t.stmts([body], env, ret_kind)
+    # canonical result order (by field name); stores made through helpers / pointers are only seen while
+    # translating, so translate again when the syntactic scan missed one
+    for _ in range(3):
+        t.all_written = sorted(set(t.all_written) | set(t.written))
+        t.cnt = 0
+        env = {p: p for p in t.params}
+        code = t.stmts([body], env, ret_kind)
+        if set(t.written) <= set(t.all_written):
+            break
     code = re.sub(r"@FIELD:(\w+)@", r"\1", code)
     # canonical argument order (by field name), independent of the order of first use in the C text
     t.fields = sorted(t.fields)
